@@ -2,8 +2,11 @@ package main
 
 import (
 	"fmt"
+	"go/ast"
+	"go/constant"
 	"go/token"
 	"go/types"
+	"regexp/syntax"
 
 	"golang.org/x/tools/go/ssa"
 )
@@ -431,4 +434,283 @@ func ruleTDANGLE(p *Program, r *Reporter) {
 	if n < 2 {
 		r.Anchor(id, "processStrongReferences: rowExists / NewReferentialIntegrityViolation calls")
 	}
+}
+
+// ---------------------------------------------------------------------------
+// T-PROBE — the inactivity probe's timeout is armed again on every turn of its
+// loop. A select state receiving from a time channel inside the probe loop is
+// accepted when the channel is produced by a call evaluated inside the loop
+// (time.After: fresh timer per iteration), comes from a Ticker, or comes from a
+// Timer that is Reset on every path from the select back to the select.
+
+func ruleTPROBE(p *Program, r *Reporter) {
+	const id = "T-PROBE"
+	fn := p.Fn("client", "ovsdbClient", "handleInactivityProbes")
+	if fn == nil {
+		r.Anchor(id, "client.(*ovsdbClient).handleInactivityProbes")
+		return
+	}
+	region := p.PrivateRegion(fn)
+	region[fn] = true
+	n := 0
+	isTimeChan := func(t types.Type) bool {
+		ch, ok := t.Underlying().(*types.Chan)
+		return ok && isNamed(ch.Elem(), "time", "Time")
+	}
+	for g := range region {
+		if g.Parent() != nil {
+			continue // goroutines waiting for one reply are not the probe loop
+		}
+		for _, b := range g.Blocks {
+			for _, ins := range b.Instrs {
+				sel, ok := ins.(*ssa.Select)
+				if !ok {
+					continue
+				}
+				h := loopHeaderOf(b)
+				if h == nil {
+					continue
+				}
+				for _, st := range sel.States {
+					if st.Dir != types.RecvOnly || !isTimeChan(st.Chan.Type()) {
+						continue
+					}
+					n++
+					ok, why := false, "the timeout channel is neither created inside the loop nor a timer that is reset on every turn"
+					switch c := st.Chan.(type) {
+					case *ssa.Call:
+						if inLoopOf(h, c.Block()) {
+							ok, why = true, "timeout channel created by a call evaluated on every turn of the loop"
+						}
+					case *ssa.UnOp:
+						if fa, isFA := c.X.(*ssa.FieldAddr); isFA {
+							owner := deref(fa.X.Type())
+							switch {
+							case isNamed(owner, "time", "Ticker"):
+								ok, why = true, "ticker channel (periodic)"
+							case isNamed(owner, "time", "Timer"):
+								resets := map[*ssa.BasicBlock]bool{}
+								for _, b2 := range g.Blocks {
+									for _, i2 := range b2.Instrs {
+										if c2, isCall := i2.(*ssa.Call); isCall {
+											if sc := c2.Call.StaticCallee(); sc != nil && sc.Name() == "Reset" && sc.Pkg != nil && sc.Pkg.Pkg.Path() == "time" && len(c2.Call.Args) > 0 && c2.Call.Args[0] == fa.X {
+												resets[b2] = true
+											}
+										}
+									}
+								}
+								if !pathAvoiding(b, b, resets) {
+									ok, why = true, "timer is Reset on every path from the select back to the select"
+								} else {
+									why = "some path from the select back to the select does not Reset the timer: after it fires once it never fires again and a silent peer goes undetected"
+								}
+							}
+						}
+					}
+					r.Ob(id, funcName(g), "probe timeout re-armed", sel.Pos(), ok, true, why)
+				}
+			}
+		}
+	}
+	if n < 1 {
+		r.Anchor(id, "handleInactivityProbes: no select on a time channel inside a loop")
+	}
+}
+
+// pathAvoiding: is there a path of length >= 1 from a successor of `from` to
+// `to` that never enters a block of `avoid`?
+func pathAvoiding(from, to *ssa.BasicBlock, avoid map[*ssa.BasicBlock]bool) bool {
+	seen := map[*ssa.BasicBlock]bool{}
+	work := append([]*ssa.BasicBlock{}, from.Succs...)
+	for len(work) > 0 {
+		b := work[len(work)-1]
+		work = work[:len(work)-1]
+		if seen[b] || avoid[b] {
+			continue
+		}
+		seen[b] = true
+		if b == to {
+			return true
+		}
+		work = append(work, b.Succs...)
+	}
+	return false
+}
+
+// ---------------------------------------------------------------------------
+// K-REGEX — a regular expression compiled from a constant in package ovsdb and
+// used to decide validity (MatchString) is anchored at both ends; an
+// unanchored pattern accepts any string merely *containing* a match.
+
+func ruleKREGEX(p *Program, r *Reporter) {
+	const id = "K-REGEX"
+	n := 0
+	var fns []*ssa.Function
+	for _, fn := range p.srcFuncs {
+		if pkgOf(fn) == "ovsdb" {
+			fns = append(fns, fn)
+		}
+	}
+	if sp := p.SSAPkgs["ovsdb"]; sp != nil {
+		if ini := sp.Func("init"); ini != nil {
+			fns = append(fns, ini) // package-level variable initialisers
+		}
+	}
+	for _, fn := range fns {
+		for _, b := range fn.Blocks {
+			for _, ins := range b.Instrs {
+				c, ok := ins.(*ssa.Call)
+				if !ok {
+					continue
+				}
+				sc := c.Call.StaticCallee()
+				if sc == nil || sc.Pkg == nil || sc.Pkg.Pkg.Path() != "regexp" || (sc.Name() != "MustCompile" && sc.Name() != "Compile") || len(c.Call.Args) != 1 {
+					continue
+				}
+				cst, ok := c.Call.Args[0].(*ssa.Const)
+				if !ok || cst.Value == nil || cst.Value.Kind() != constant.String {
+					continue
+				}
+				n++
+				pat := constant.StringVal(cst.Value)
+				re, err := syntax.Parse(pat, syntax.Perl)
+				okA, why := false, ""
+				if err != nil {
+					why = "pattern does not parse: " + err.Error()
+				} else {
+					re = re.Simplify()
+					okA = anchoredBothEnds(re)
+					why = ifs(okA, "pattern is anchored at both ends", "pattern "+pat+" is not anchored at both ends: any string containing a match is accepted as valid")
+				}
+				r.Ob(id, funcName(fn), "regexp anchored", c.Pos(), okA, true, why)
+			}
+		}
+	}
+	if n < 1 {
+		r.Anchor(id, "package ovsdb: regexp compiled from a constant")
+	}
+}
+
+func anchoredBothEnds(re *syntax.Regexp) bool {
+	switch re.Op {
+	case syntax.OpCapture:
+		return anchoredBothEnds(re.Sub[0])
+	case syntax.OpAlternate:
+		for _, s := range re.Sub {
+			if !anchoredBothEnds(s) {
+				return false
+			}
+		}
+		return len(re.Sub) > 0
+	case syntax.OpConcat:
+		if len(re.Sub) < 2 {
+			return false
+		}
+		return re.Sub[0].Op == syntax.OpBeginText && re.Sub[len(re.Sub)-1].Op == syntax.OpEndText
+	}
+	return false
+}
+
+// ---------------------------------------------------------------------------
+// K-WIRETYPE — the two halves of a hand-written JSON codec declare the same Go
+// type for the same wire member. For every named type of package ovsdb with
+// both MarshalJSON and UnmarshalJSON, the struct types declared inside the two
+// method bodies are compared member by member (json tag); a member declared by
+// both halves must have identical types, otherwise one direction accepts or
+// produces values the other cannot represent.
+
+func ruleKWIRETYPE(p *Program, r *Reporter) {
+	const id = "K-WIRETYPE"
+	pk := p.Pkgs["ovsdb"]
+	if pk == nil {
+		r.Anchor(id, "package ovsdb")
+		return
+	}
+	type half struct {
+		members map[string]types.Type
+		pos     map[string]token.Pos
+	}
+	collect := func(fd *ast.FuncDecl) half {
+		h := half{map[string]types.Type{}, map[string]token.Pos{}}
+		ast.Inspect(fd.Body, func(n ast.Node) bool {
+			st, ok := n.(*ast.StructType)
+			if !ok {
+				return true
+			}
+			tv, ok := pk.TypesInfo.Types[st]
+			if !ok {
+				return true
+			}
+			s, ok := tv.Type.Underlying().(*types.Struct)
+			if !ok {
+				return true
+			}
+			for i := 0; i < s.NumFields(); i++ {
+				name, keep := jsonTagName(s.Tag(i), s.Field(i).Name())
+				if !keep {
+					continue
+				}
+				if _, dup := h.members[name]; !dup {
+					h.members[name] = s.Field(i).Type()
+					h.pos[name] = s.Field(i).Pos()
+				}
+			}
+			return true
+		})
+		return h
+	}
+	halves := map[string]map[string]half{} // type -> method -> half
+	for _, f := range pk.Syntax {
+		for _, d := range f.Decls {
+			fd, ok := d.(*ast.FuncDecl)
+			if !ok || fd.Recv == nil || fd.Body == nil || (fd.Name.Name != "MarshalJSON" && fd.Name.Name != "UnmarshalJSON") {
+				continue
+			}
+			obj, _ := pk.TypesInfo.Defs[fd.Name].(*types.Func)
+			if obj == nil {
+				continue
+			}
+			sig := obj.Type().(*types.Signature)
+			nt, _ := deref(sig.Recv().Type()).(*types.Named)
+			if nt == nil {
+				continue
+			}
+			tn := nt.Obj().Name()
+			if halves[tn] == nil {
+				halves[tn] = map[string]half{}
+			}
+			halves[tn][fd.Name.Name] = collect(fd)
+		}
+	}
+	n := 0
+	for _, tn := range sortedKeys(halves) {
+		m, okm := halves[tn]["MarshalJSON"]
+		u, oku := halves[tn]["UnmarshalJSON"]
+		if !okm || !oku {
+			continue
+		}
+		for _, name := range sortedKeys(m.members) {
+			ut, both := u.members[name]
+			if !both {
+				continue
+			}
+			if isEmptyInterface(ut) || isEmptyInterface(m.members[name]) {
+				// polymorphic member decoded/encoded by hand (enum, max): K1 follows it
+				continue
+			}
+			n++
+			same := types.Identical(m.members[name], ut)
+			r.Ob(id, "ovsdb."+tn, "member "+name, u.pos[name], same, true,
+				ifs(same, "encoder and decoder declare "+types.TypeString(ut, nil)+" for this member",
+					fmt.Sprintf("encoder declares %s, decoder declares %s for wire member %q: the decoder accepts (or loses) values the encoder cannot write", types.TypeString(m.members[name], nil), types.TypeString(ut, nil), name)))
+		}
+	}
+	if n < 1 {
+		r.Anchor(id, "package ovsdb: codec pairs with struct-typed wire forms")
+	}
+}
+
+func isEmptyInterface(t types.Type) bool {
+	i, ok := t.Underlying().(*types.Interface)
+	return ok && i.NumMethods() == 0
 }
